@@ -629,7 +629,7 @@ func c06PolicyTables(rec *vu.Recorder, st *c06Stats, dims []int) {
 
 // ---------------------------------------------------------------------------------------------- random drivers
 
-var c06HistDims = [][]int{{1, 1, 2, 2}, {1, 2, 2, 2}, {2, 1, 2, 2}, {2, 2, 2, 2}, {2, 2, 1, 2}, {1, 2, 4, 1}, {2, 2, 2, 1}, {1, 1, 4, 2}, {1, 3, 2, 2}, {1, 4, 1, 2}}
+var c06HistDims = [][]int{{1, 1, 2, 2}, {1, 2, 2, 2}, {2, 1, 2, 2}, {2, 2, 2, 2}, {2, 2, 1, 2}, {1, 2, 4, 1}, {2, 2, 2, 1}, {1, 1, 4, 2}, {1, 3, 2, 2}, {1, 4, 1, 2}, {3, 1, 2, 2}, {3, 1, 3, 2}, {4, 1, 2, 2}}
 
 func c06Subset(rng *rand.Rand, from []int, p float64) []int {
 	out := []int{}
